@@ -114,3 +114,65 @@ func c08InFlight(cached, closerFlavour bool, which int) string {
 	}
 	return ""
 }
+
+// c08AfterTestRoot: a reporter-less test root (NewTestScope) is closed; scopes obtained afterwards - from
+// the root and from subscope handles obtained BEFORE the Close - must be inert: nothing recorded through
+// them shows up in the root's Snapshot ("scopes obtained afterwards are inert"; "Close on a root created
+// without an interval behaves the same").
+func c08AfterTestRoot() (fail string) {
+	defer func() {
+		if p := recover(); p != nil {
+			fail = fmt.Sprintf("panic after Close of a test root: %v", p)
+		}
+	}()
+	root := tally.NewTestScope("p", map[string]string{"env": "t"})
+	oldSub := root.SubScope("old")
+	oldTag := root.Tagged(map[string]string{"k": "v"})
+	oldSub.Counter("c").Inc(1)
+	oldTag.Gauge("g").Update(2)
+	if err := root.(interface{ Close() error }).Close(); err != nil {
+		return fmt.Sprintf("Close of a test root returned %v", err)
+	}
+	keys := func() map[string]bool {
+		m := map[string]bool{}
+		s := root.Snapshot()
+		for k := range s.Counters() {
+			m["counter "+k] = true
+		}
+		for k := range s.Gauges() {
+			m["gauge "+k] = true
+		}
+		for k := range s.Timers() {
+			m["timer "+k] = true
+		}
+		for k := range s.Histograms() {
+			m["histogram "+k] = true
+		}
+		return m
+	}
+	before := keys()
+	derivs := []struct {
+		what string
+		f    func() tally.Scope
+	}{
+		{`root.SubScope("new")`, func() tally.Scope { return root.SubScope("new") }},
+		{"root.Tagged({a:b})", func() tally.Scope { return root.Tagged(map[string]string{"a": "b"}) }},
+		{`oldSub.SubScope("x") (oldSub was obtained before the Close)`, func() tally.Scope { return oldSub.SubScope("x") }},
+		{"oldSub.Tagged({z:1})", func() tally.Scope { return oldSub.Tagged(map[string]string{"z": "1"}) }},
+		{"oldTag.Tagged({k2:v2})", func() tally.Scope { return oldTag.Tagged(map[string]string{"k2": "v2"}) }},
+		{`oldTag.SubScope("y")`, func() tally.Scope { return oldTag.SubScope("y") }},
+	}
+	for _, d := range derivs {
+		s := d.f()
+		s.Counter("late_c").Inc(1)
+		s.Gauge("late_g").Update(1)
+		s.Timer("late_t").Record(time.Millisecond)
+		s.Histogram("late_h", tally.ValueBuckets{1}).RecordValue(1)
+		for k := range keys() {
+			if !before[k] {
+				return fmt.Sprintf("test root (no reporter, no interval) closed; a scope obtained afterwards by %s is not inert: the root's snapshot now has the %s", d.what, k)
+			}
+		}
+	}
+	return ""
+}
